@@ -109,6 +109,9 @@ fn run_generic<K: KeyT, V: ValT>(prop: Prop, spec: &RunSpec, want_transcript: bo
         if so.oom_fired > 0 {
             *out.faults.entry("alloc-failure".to_string()).or_insert(0) += so.oom_fired;
         }
+        for (k, v) in &so.faults_extra {
+            *out.faults.entry(k.to_string()).or_insert(0) += v;
+        }
         if let Some(st) = so.before.as_ref() {
             if st.split {
                 out.nontrivial = true;
@@ -147,7 +150,7 @@ fn run_generic<K: KeyT, V: ValT>(prop: Prop, spec: &RunSpec, want_transcript: bo
                 if interrupted_clone_from || w.adopt_by_lookup().is_err() {
                     stopped = true;
                 }
-            } else if prop == Prop::C17 {
+            } else if prop == Prop::C17 || prop == Prop::C05 {
                 // the model is stale after an interrupted call: adopt what the collections hold
                 // (C07 judges that state; here only the two builds are compared) and go on
                 let interrupted_clone_from = matches!(op, Op::CloneFrom { .. } | Op::SCloneFrom { .. });
